@@ -638,6 +638,15 @@ def run(chk):
     vlib.setup_impl()
     L.quiet_logs()
     chk.search_hook = search
+    if chk.replay:
+        data = json.loads(open(chk.replay).read())
+        case = (data.get("case") or {}).get("case") if isinstance(data.get("case"), dict) else None
+        if case is None and data.get("correspondence_failures"):
+            case = data["correspondence_failures"][0].get("case")
+        if isinstance(case, dict) and "kind" in case and "headers" in case:
+            http_stage(chk, [case])   # model comparison + all monitors on the recorded request
+            return
+        chk.notes.append("replay file has no HTTP case; running the normal check")
     netloc_stage(chk)
     check_origin_stage(chk)
     config_stage(chk)
